@@ -21,6 +21,9 @@ def Op.target : Op → Nat
   | .copy _ j => j
   | .assignMol k .. => k
   | .setMolMap k .. => k
+  | .addFromStr k .. => k
+  | .parseRxns k .. => k
+  | .parseRxnsRules k .. => k
 
 theorem mkId_inj (rule : String) (a b : Nat) (h : mkId rule a = mkId rule b) : a = b := by
   unfold mkId at h
@@ -633,6 +636,111 @@ theorem setMolMap_inv (s : Store) (mapping : List (String × String)) (strict cl
     · intro sp hsp; simp [Dict.keys] at hsp
     · exact e
 
+/-! ### String entry points: the parsed sides are dicts -/
+
+theorem accum_nodup (out : Side) (k : String) (c : Nat) (h : out.keys.Nodup) :
+    (Views.accum out k c).keys.Nodup := nodup_keys_set _ _ _ h
+
+/-- Every successful `parsePart` leaves the accumulator alone or does one `accum`. -/
+theorem parsePart_shape (out o : Side) (part : List Char) (h : Views.parsePart out part = .ok o) :
+    o = out ∨ ∃ k c, o = Views.accum out k c := by
+  unfold Views.parsePart at h
+  simp only at h
+  split at h
+  · simp at h
+  · split at h
+    · split at h
+      · simp only [Except.ok.injEq] at h; subst h
+        split
+        · exact Or.inr ⟨_, _, rfl⟩
+        · exact Or.inl rfl
+      · simp only [Except.ok.injEq] at h; subst h; exact Or.inr ⟨_, _, rfl⟩
+    · simp only [Except.ok.injEq] at h; subst h; exact Or.inr ⟨_, _, rfl⟩
+  · split at h
+    · split at h
+      · simp only [Except.ok.injEq] at h; subst h; exact Or.inr ⟨_, _, rfl⟩
+      · simp only [Except.ok.injEq] at h; subst h; exact Or.inl rfl
+    · simp only [Except.ok.injEq] at h; subst h; exact Or.inr ⟨_, _, rfl⟩
+
+theorem parseParts_nodup (parts : List (List Char)) : ∀ (out o : Side), out.keys.Nodup →
+    Views.parseParts out parts = .ok o → o.keys.Nodup := by
+  induction parts with
+  | nil =>
+    intro out o h hp
+    simp only [Views.parseParts, Except.ok.injEq] at hp
+    subst hp; exact h
+  | cons p ps ih =>
+    intro out o h hp
+    unfold Views.parseParts at hp
+    split at hp
+    · rename_i o1 h1
+      apply ih o1 o _ hp
+      rcases parsePart_shape _ _ _ h1 with rfl | ⟨k, c, rfl⟩
+      · exact h
+      · exact accum_nodup _ _ _ h
+    · simp at hp
+
+/-- `RXNSide.from_str` returns a dict (no species twice). -/
+theorem parseSide_nodup (t : List Char) (m : Side) (h : Views.parseSide t = .ok m) :
+    m.keys.Nodup := by
+  unfold Views.parseSide at h
+  simp only at h
+  split at h
+  · simp only [Except.ok.injEq] at h; subst h; simp [Dict.keys]
+  · exact parseParts_nodup _ [] m (by simp [Dict.keys]) h
+
+theorem parseLine_nodup (rule : Option String) (sfx : Bool) (line : List Char) (pl : Views.ParsedLine)
+    (h : Views.parseLine rule sfx line = .ok pl) :
+    pl.reactants.keys.Nodup ∧ pl.products.keys.Nodup := by
+  unfold Views.parseLine at h
+  simp only at h
+  split at h
+  · simp at h
+  · split at h
+    · simp at h
+    · rename_i rs hrs
+      split at h
+      · simp at h
+      · rename_i ps hps
+        simp only [Except.ok.injEq] at h
+        subst h
+        exact ⟨parseSide_nodup _ _ hrs, parseSide_nodup _ _ hps⟩
+
+theorem addFromStr_inv (s : Store) (line : List Char) (rule : Option String) (sfx : Bool)
+    (h : s.Inv) : (s.addFromStr line rule sfx).1.Inv := by
+  unfold Store.addFromStr
+  split
+  · exact h
+  · rename_i pl hpl
+    obtain ⟨hr, hp⟩ := parseLine_nodup _ _ _ _ hpl
+    exact addNorm_inv s _ _ pl.rule none h hr hp
+
+theorem parseRxns_inv (items : List (List Char × Option String)) (dr : String) (sfx pref : Bool) :
+    ∀ (s : Store), s.Inv → (s.parseRxns items dr sfx pref).1.Inv := by
+  induction items with
+  | nil => intro s h; exact h
+  | cons it rest ih =>
+    intro s h
+    obtain ⟨line, ex⟩ := it
+    unfold Store.parseRxns
+    have h1 := addFromStr_inv s line (lineArgs dr sfx pref line ex).1 (lineArgs dr sfx pref line ex).2 h
+    simp only
+    split
+    · rename_i s1 _ heq
+      rw [heq] at h1
+      exact ih s1 h1
+    · rename_i s1 e heq
+      rw [heq] at h1
+      exact h1
+
+theorem parseRxnsRules_inv (s : Store) (lines : List (List Char)) (rules : List (Option String))
+    (dr : String) (sfx pref : Bool) (h : s.Inv) :
+    (s.parseRxnsRules lines rules dr sfx pref).1.Inv := by
+  unfold Store.parseRxnsRules
+  split
+  · exact h
+  · exact parseRxns_inv _ dr sfx pref s h
+
 /-! ### `remove` and `removeSpecies`: invariant with pending orphan checks -/
 
 /-- `Inv` where `species` may additionally contain the species in `P` (whose orphan test is
@@ -1100,6 +1208,27 @@ theorem step_inv (w : World) (op : Op) (h : ∀ s ∈ w, s.Inv) : ∀ s ∈ (ste
     · exact h
     · rename_i s hk
       exact put_inv w k _ h (setMolMap_inv s mapping strict clear (h s (List.mem_of_getElem? hk)))
+  | addFromStr k line rule sfx =>
+    simp only
+    split
+    · exact h
+    · rename_i s hk
+      have hs := h s (List.mem_of_getElem? hk)
+      have := addFromStr_inv s line rule sfx hs
+      split <;> rename_i heq <;> rw [heq] at this <;> exact put_inv w k _ h this
+  | parseRxns k items dr sfx pref =>
+    simp only
+    split
+    · exact h
+    · rename_i s hk
+      exact put_inv w k _ h (parseRxns_inv items dr sfx pref s (h s (List.mem_of_getElem? hk)))
+  | parseRxnsRules k lines rules dr sfx pref =>
+    simp only
+    split
+    · exact h
+    · rename_i s hk
+      exact put_inv w k _ h
+        (parseRxnsRules_inv s lines rules dr sfx pref (h s (List.mem_of_getElem? hk)))
 
 theorem initWorld_inv (n : Nat) : ∀ s ∈ initWorld n, s.Inv := by
   intro s hs
